@@ -14,6 +14,7 @@ import Driver.Verify
 import Driver.Filter
 import Driver.Bisync
 import Driver.Watch
+import Driver.Caches
 
 namespace Driver
 
@@ -32,6 +33,7 @@ def dispatch (toks : List String) : String :=
       else if area == "glob" || area == "filter" then Driver.Filter.handle toks
       else if area == "bisync" then Driver.Bisync.handle toks
       else if area == "watch" then Driver.Watch.handle toks
+      else if area == "caches" then Driver.Caches.handle toks
       else none
     r.getD "bad-op"
 
